@@ -10,6 +10,9 @@ SPEC = {
  "props": [
   "props/C02.vo"
  ],
+ "tie": ["tie/HandleEquiv.vo"],
+ "gen_items": ["src/bytes/raw/allocated.rs:slice_unchecked + explicit_clone"],
+ "tieA_required": True,
  "case_libs": [
   "theories/CasesBytes.vo"
  ],
